@@ -109,10 +109,10 @@ theorem insertPrimaries_checked (ps : List Primary) (s : State) :
       · injection h with h
         exact ⟨by omega, h.symm⟩
 
-/-- initTracks_injective (TrackOrder::none): thread `k` takes initializer `numInit-1-k` into
+/-- initTracks_injective (TrackOrder::none and every reindex_* order): thread `k` takes initializer `numInit-1-k` into
     vacancy `numVac-1-k`; all target slots are distinct and empty, nothing else is written; the
     accounting invariant is preserved with `numInit - k` pending. -/
-theorem initTracks_none_loop {cfg : Cfg} {s0 : State} (hord : cfg.order = .none) {n : Nat}
+theorem initTracks_none_loop {cfg : Cfg} {s0 : State} (hord : cfg.order ≠ .initCharge) {n : Nat}
     (hn1 : n ≤ s0.c.numVacancies) (hn2 : n ≤ s0.c.numInitializers)
     (hni : s0.c.numInitializers ≤ cfg.capacity) (hvlen : s0.c.numVacancies ≤ s0.vacancies.length)
     (hvnd : s0.vacancies.Nodup) (hvlt : ∀ v ∈ s0.vacancies, v < cfg.slots)
@@ -244,7 +244,26 @@ theorem enums_match_source :
     valueOf Generated.TrackInit.trackStatus "begin_dying_" = some (Status.entry .errored).2 ∧
     (∀ x ∈ allOrder, x.entry ∈ Generated.TrackInit.trackOrder) ∧
     valueOf Generated.TrackInit.trackOrder "begin_layout_" = some (Order.entry .initCharge).2 ∧
-    valueOf Generated.TrackInit.trackOrder "end_layout_" = some ((Order.entry .initCharge).2 + 1) := by
+    valueOf Generated.TrackInit.trackOrder "end_layout_" = some ((Order.entry .initCharge).2 + 1) ∧
+    -- every other real TrackOrder enumerator lies in the reindex range = `Order.reindex`
+    (∀ p ∈ Generated.TrackInit.trackOrder, isOrderSentinel p = true ∨ p = Order.entry .none ∨
+      p = Order.entry .initCharge ∨
+      ((Order.entry .reindex).2 ≤ p.2 ∧
+        p.2 < (valueOf Generated.TrackInit.trackOrder "end_reindex_").getD 0)) := by
+  decide
+
+/-- the `reindex_*` track orders do not touch the track-initialisation arithmetic: in the
+    CURRENT sources of InitializeTracksAction, ExtendFromPrimaries/SecondariesAction, their
+    executors, TrackInitAlgorithms and Utils.hh the only `TrackOrder` enumerator ever compared
+    is `init_charge`, and the thread→slot map `track_slots` (the only thing the reindex orders
+    change) is never read there — these kernels address track slots directly.  Hence any
+    `reindex_*` order takes exactly the branches of `TrackOrder::none`; in the model that is
+    `Order.reindex`, every test being `order = .initCharge`, and all theorems above (which
+    assume at most `order ≠ .initCharge`) cover it.  Real runs with reindex_shuffle/status/
+    particle_type/along_step/step_limit/both are diffed against the model in the check. -/
+theorem reindex_orders_not_consulted :
+    Generated.TrackInit.trackOrderMentions = ["init_charge"] ∧
+    Generated.TrackInit.trackSlotsMentions = 0 := by
   decide
 
 /-- consecutively numbered steps: a valid track's step counter grows by exactly one per step,
